@@ -141,7 +141,7 @@ def generate(rng, tier):
     return {
         "streamfault": streamfault, "latin1_at": latin1_at, "readfault_nth": rng.range(1, 4),
         "diff": text, "p": p, "filter": flt, "expected": expected, "ctx": ctx,
-        "child": rng.choice(["ok"] * 5 + ["exit1", "exit101", "signal9", "signal11", "enoent"]),
+        "child": rng.choice(["ok"] * 5 + ["exit1", "exit101", "signal9", "signal11", "enoent", "e2big"]),
         "chunks": [rng.choice(["1", "7,1,30", "64", "3,200", "1000000"]), rng.choice(["2,5", "13", "1,1,1,4096"])],
         "eintr": rng.chance(20), "hashseed": rng.below(1 << 32),
     }
@@ -169,9 +169,14 @@ def execute(case):
                 stubplan = ["* signal %s" % child[6:]]
             elif child == "enoent":
                 env["RUSTFMT"] = "/nonexistent/rustfmt"
+            e2big = child == "e2big"
+            if e2big:
+                stubplan = ["0 exit 1"]  # whatever the tool tries after the failed spawn: its first child fails
             plan = ["* read 0 @0 short %s" % chunk]
             if case["eintr"] and k == 1:
                 plan.append("* read 2 @0 eintr 2")
+            if e2big:
+                plan.append("0 spawn 1 stub-rustfmt errno 7")
             sf = case.get("streamfault")
             stdin = case["diff"]
             if sf == "read-eio":
@@ -216,6 +221,12 @@ def execute(case):
             ab = core.abnormal(res)
             if ab and not ab.startswith("exit:"):
                 v.add("C19:abnormal|%s" % ab, det + " stderr=%r" % core.text_of(res.stderr)[:200])
+                continue
+            if e2big:
+                if any(e.fault for e in res.procs[0]):
+                    v.planned("spawn-e2big"); v.fired("spawn-e2big")
+                    if exp and res.exit == 0:
+                        v.add("C19:exit-0-despite-failing-child|e2big", "%s: spawning rustfmt failed with E2BIG (and the first retry, if any, exited 1), yet the tool exited 0" % det)
                 continue
             got_files, got_ranges = None, None
             call_argv = None
